@@ -1,6 +1,6 @@
 """C13 - non-Gaussian likelihoods: exact Gauss-Hermite rule, analytic Bernoulli marginal, log_normal_cdf.
 Spec: Quadrature.tla (exact Gaussian moments, code-shaped rule for num_locs <= 3, shape/index model of forward, likelihood x
-method x setting lattice).  Replay workers live in checks/c13_replay.py, references in checks/c13_ref.py."""
+method x setting lattice, repeated differentiation of log_normal_cdf through one graph - part "rediff", machine of BackwardOps.tla).  Replay workers live in checks/c13_replay.py, references in checks/c13_ref.py."""
 import os
 import random
 from fractions import Fraction
@@ -34,20 +34,25 @@ def tla(v):
     raise TypeError(v)
 
 
-def write_mc(workdir, part, instances=()):
+BW_MAX = 3
+BW_UP = {"quick": ["ones", "randA"], "thorough": ["ones", "randA", "randB", "unit"]}
+
+
+def write_mc(workdir, part, instances=(), tier="quick", impure=(), name=None):
     os.makedirs(workdir, exist_ok=True)
-    mod = "MC_Quadrature_" + part
+    mod = "MC_Quadrature_" + (name or part)
     with open(os.path.join(workdir, mod + ".tla"), "w") as f:
         f.write("---- MODULE %s ----\nEXTENDS Quadrature\n" % mod)
         f.write("InstDef == {%s}\n" % ",\n  ".join(tla(i) for i in instances))
         f.write("LatDef == {%s}\n" % ", ".join(tla(dict(mn=a, sn=b, dd=d)) for a, b, d in LATTICE))
         f.write("DimsDef == {1, 2, 3}\nShLocsDef == {2, 4}\n")
         f.write("LocSetDef == {%s}\n" % ", ".join(str(k) for k in LOCS_SETTINGS))
-        f.write("BatchDef == {%s}\n====\n" % ", ".join(tla(list(b)) for b in BATCHES))
+        f.write("BatchDef == {%s}\n" % ", ".join(tla(list(b)) for b in BATCHES))
+        f.write("BWUpDef == {%s}\nBWImpureDef == {%s}\n====\n" % (", ".join(tla(u) for u in BW_UP[tier]), ", ".join(tla(list(i)) for i in impure)))
     cfg = os.path.join(workdir, mod + ".cfg")
-    inv = {"moments": "MomentsOK", "rule": "RuleOK", "shapes": "ShapesOK", "lattice": "LatticeOK"}[part]
+    inv = {"moments": "MomentsOK", "rule": "RuleOK", "shapes": "ShapesOK", "lattice": "LatticeOK", "rediff": "RediffDerivOK" if impure else "RediffOK"}[part]
     tlc.write_cfg(cfg, spec="Spec", invariants=[inv],
-                  constants={"Part": part, "Instances": "<- InstDef", "MaxDeg": 12, "RuleLattice": "<- LatDef", "ShapeDims": "<- DimsDef",
+                  constants={"Part": part, "BWMaxBwd": BW_MAX, "BWUpstreams": "<- BWUpDef", "BWImpure": "<- BWImpureDef", "Instances": "<- InstDef", "MaxDeg": 12, "RuleLattice": "<- LatDef", "ShapeDims": "<- DimsDef",
                              "ShapeRank": 2, "ShapeLocs": "<- ShLocsDef", "LocsSettings": "<- LocSetDef", "BatchShapes": "<- BatchDef",
                              "DataN": rp.DATA_N, "NumSamples": rp.NUM_SAMPLES, "DefaultLocs": 20})
     return os.path.join(workdir, mod + ".tla"), cfg
@@ -83,10 +88,20 @@ def run(ck):
     coefs = gen_coefs(rnd, 12 if thorough else 3)
     insts = [dict(mn=a, sn=b, dd=d, coef=c) for (a, b, d) in LATTICE for c in coefs]
     jobs = []
-    for part in ("moments", "rule", "shapes", "lattice"):
-        mod, cfg = write_mc(wd, part, insts if part == "moments" else ())
-        jobs.append(((mod, cfg), dict(name=PID + "/" + part, dump=True, check=False, workers=4, timeout=900)))
-    rs = dict(zip(("moments", "rule", "shapes", "lattice"), tlc.run_many(jobs, parallel=4)))
+    tw = max(1, min(4, core.NPROC // 3))
+    for part in ("moments", "rule", "shapes", "lattice", "rediff"):
+        mod, cfg = write_mc(wd, part, insts if part == "moments" else (), tier=ck.tier)
+        jobs.append(((mod, cfg), dict(name=PID + "/" + part, dump=True, check=False, workers=tw, timeout=900, coverage=(part != "rediff"))))
+    # vacuity guard of the histories: a backward that overwrites ctx.denominator must be found, and only by a history with two passes
+    mod, cfg = write_mc(wd, "rediff", (), tier=ck.tier, impure=[("lncdf", "denominator")], name="rediff_impure")
+    jobs.append(((mod, cfg), dict(name=PID + "/rediff_impure", dump=False, check=False, workers=1, timeout=600, coverage=False)))
+    res_all = tlc.run_many(jobs, parallel=3)
+    r_imp = res_all.pop()
+    ck.add_tlc(r_imp, "Quadrature rediff with an in-place write on ctx.denominator (must violate)")
+    passes = max([len(st.get("out", {}).get("m", {}).get("hist", ())) for _, st in (r_imp.violation or {}).get("trace", [])] or [0])
+    if not r_imp.violation or r_imp.violation["name"] != "RediffDerivOK" or passes < 2:
+        ck.vacuous("the repeated-differentiation machine does not distinguish an impure backward (violation %r, passes in the counterexample %d)" % ((r_imp.violation or {}).get("name"), passes))
+    rs = dict(zip(("moments", "rule", "shapes", "lattice", "rediff"), res_all))
     for part, r in rs.items():
         ck.add_tlc(r, "Quadrature " + part)
         if r.violation:
@@ -139,6 +154,22 @@ def run(ck):
     if len(cells) != 5 * 3 * len(LOCS_SETTINGS) ** 2 * len(BATCHES):
         ck.vacuous("Quadrature lattice run produced %d cells" % len(cells))
     items += cells
+    # ---- (4) repeated differentiation: every maximal history of the machine ---------------------------------------------------
+    hists = []
+    for st in rs["rediff"].states():
+        m = st["out"]["m"]
+        hist = list(m["hist"])
+        if not hist or (str(m["phase"]) == "recorded" and bool(m["alive"]) and len(hist) < BW_MAX):
+            continue
+        if any(int(v) != 0 for h in hist for v in h["saw"].values()):
+            raise core.Machinery("C13: a history of the unchanged model reads a modified context")
+        c = st["c"]
+        hists.append((dict(route=str(c["route"]), zc=str(c["zc"]), batch=str(c["batch"])), [dict(u=str(h["u"]), how=str(h["how"])) for h in hist]))
+    hists.sort(key=repr)
+    routes = {r: sum(1 for c, _ in hists if c["route"] == r) for r in ("log_normal_cdf", "bernoulli_elp")}
+    if not all(routes.values()) or not any(len(h) >= 2 for _, h in hists) or not any(h[0]["how"] == "jacobian" for _, h in hists):
+        ck.vacuous("Quadrature rediff run: histories per route %s" % routes)
+    items += rp.rediff_items(hists, ck.seed, thorough)
     # ---- (b), (c), (d): reference comparisons -----------------------------------------------------------------------------------
     items += rp.cond_items(ck.seed, thorough)
     items += rp.bern_items(ck.seed, thorough)
@@ -156,17 +187,22 @@ def run(ck):
         counts[it["kind"]] = counts.get(it["kind"], 0) + 1
     ck.section("replay", **{"items_" + k: v for k, v in counts.items()})
     ck.section("tlc", moment_instances=len(exact), rule_states=len(rule_states), shape_cases=len(shape_cases), shape_cases_in_domain=n_ok,
-               lattice_cells=len(cells), lattice_cells_decided=sum(1 for c in cells if c["decided"]))
+               lattice_cells=len(cells), lattice_cells_decided=sum(1 for c in cells if c["decided"]), rediff_maximal_histories=len(hists),
+               rediff_histories_log_normal_cdf=routes["log_normal_cdf"], rediff_histories_bernoulli_elp=routes["bernoulli_elp"], rediff_passes_per_graph_max=BW_MAX)
     ck.rule = ("cases = (a) TLC's exact integral of every (m, s, integer polynomial) instance x every num_locs whose degree bound covers it x how the "
                "rule object is built (default dtype float64, through the setting, inside a likelihood, float32 nodes cast to double) x batch layout, plus "
                "Fraction-only degrees up to 2*40-1; (b) every in-domain (num_locs, function batch shape, observation shape) of the forward shape model; "
                "(c) every cell of likelihood x method x setting-at-construction x setting-at-call x batch shape; (d) seeded conditional parameters, Bernoulli "
-               "marginals, the fixed integral grid x {10, 20, 40} nodes, the log_normal_cdf grid; distinct = distinct abstract case; non-trivial = polynomial "
+               "marginals, the fixed integral grid x {10, 20, 40} nodes, the log_normal_cdf grid; (e) every maximal history forward -> backward^k (k <= 3; upstream gradients, retain_graph, "
+               "accumulation, Jacobian rows) of the machine of BackwardOps.tla x argument class x layout for log_normal_cdf (each history on its own slice of the grid) and for "
+               "BernoulliLikelihood.expected_log_prob; distinct = distinct abstract case; non-trivial = polynomial "
                "degree >= 1 / a batched or broadcast shape / a non-default setting or batch / every reference comparison")
     ck.explanation = ("TLC is exhaustive over (i) the rational lattice of %d (m, s) points x %d integer polynomials (exact moments, recurrence = closed form = "
                       "Stein recurrence, central moments), (ii) the code-shaped rule for num_locs <= 3 on that lattice (exact to degree 2n-1, deficit "
                       "s^2n n! at degree 2n), (iii) all %d (num_locs, function shape, observation shape) triples of rank <= 2 over {1,2,3} of the forward shape/index "
-                      "model, (iv) all %d cells of the likelihood lattice.  Every TLC case is replayed into the real code against the spec's exact value.  "
+                      "model, (iv) all %d cells of the likelihood lattice, (v) all histories forward -> backward^k (k <= 3) of the repeated-differentiation machine (part rediff, "
+                      "BackwardOps.tla): every pass reads the context the forward stored; with a backward modelled as writing to ctx.denominator TLC finds the two-pass counterexample.  "
+                      "Every TLC case is replayed into the real code against the spec's exact value.  "
                       "Everything else - truncation error on non-polynomial integrands, the accuracy of log_normal_cdf, conditional parameters, the probit "
                       "identity at real (m, v) - is a float64-vs-mpmath reference comparison on a fixed grid plus seeded samples; TLA+ only names the "
                       "integrand there.  Hence level 'other'." % (len(LATTICE), len(coefs), len(shape_cases), len(cells)))
